@@ -58,6 +58,43 @@ func (c01) Generate(r *engine.Rand, index int, tier string) *engine.Scenario {
 		genBankedCode(r, sc)
 		return sc
 	}
+	if index%16 == 11 {
+		// the LCD stays on and stores, 16-bit INC/DEC and PUSH go through pointers inside FE00-FEFF,
+		// whatever the LCD is doing (OAM scan included): what ends up in OAM is not C01's business (C17),
+		// registers, flags, PC and the stores put on the bus are
+		sc.Class = "oam-pointer-lcd-on"
+		g := &progGen{r: r, base: lsCodeWRAM}
+		g.emitStackSetup()
+		g.filler(r.Intn(12))
+		g.onlyOAM = true
+		for i, n := 0, r.Range(4, 30); i < n; i++ {
+			switch r.Intn(6) {
+			case 0:
+				p := uint8(r.Intn(4))
+				g.emit16(0x01|p<<4, g.pick(1))
+				for j, k := 0, r.Range(1, 3); j < k; j++ {
+					g.emit(engine.Pick(r, []uint8{0x03, 0x0b}) | p<<4)
+				}
+			case 1:
+				g.emit16(0x31, g.pick(2))
+				g.emit(engine.Pick(r, []uint8{0xc5, 0xd5, 0xe5, 0xf5}))
+			case 2, 3:
+				g.emitUnit(engine.Pick(r, []uint8{0x22, 0x32}), false, false)
+			case 4:
+				g.emitUnit(engine.Pick(r, []uint8{0x70, 0x71, 0x72, 0x73, 0x77, 0x36, 0x02, 0x12}), false, false)
+			default:
+				g.emitUnit(engine.Pick(r, []uint8{0xea, 0x08}), false, false)
+			}
+			g.filler(r.Intn(3))
+		}
+		g.onlyOAM = false
+		g.emitStackSetup()
+		g.finish()
+		lsScenario(sc, r, g)
+		sc.SetP("keep_lcd", 1)
+		sc.Cycles = uint64(len(g.code))*3 + 64
+		return sc
+	}
 	sc.Class = "program"
 	genCPUProgram(r, sc, r.Range(1, 40))
 	return sc
